@@ -338,6 +338,7 @@ auto a_iter_helpers(Case const& c) -> std::string
 }
 
 // ------------------------------------------------------------------ reverse_iterator against std::reverse_iterator
+bool relational_excluded = false; // exclusion class "C06.reverse_iterator.relational": < <= > >= are left out of the rendering
 template <typename RI, typename Base>
 auto rev_sweep(Buf& A, Base (*mkbase)(Buf&, int)) -> std::string
 {
@@ -368,7 +369,8 @@ auto rev_sweep(Buf& A, Base (*mkbase)(Buf&, int)) -> std::string
             RI q{mkbase(A, j)};
             o += " " + num(j) + ":" + (r == q ? "e" : "") + (r != q ? "n" : "");
             if constexpr (std::is_pointer_v<Base> || std::is_same_v<Base, Ra<Elem>>) {
-                o += std::string(r < q ? "<" : "") + (r <= q ? "L" : "") + (r > q ? ">" : "") + (r >= q ? "G" : "") + "d" + num(r - q);
+                if (!relational_excluded) { o += std::string(r < q ? "<" : "") + (r <= q ? "L" : "") + (r > q ? ">" : "") + (r >= q ? "G" : ""); }
+                o += "d" + num(r - q);
             }
         }
         if constexpr (std::is_pointer_v<Base> || std::is_same_v<Base, Ra<Elem>>) {
@@ -395,6 +397,7 @@ template <typename K>
 auto a_reverse_iterator(Case const& c) -> std::string
 {
     if (len(c) > 8) { return SKIP; } // the sweep is quadratic in the length and independent of the contents
+    relational_excluded = known("C06.reverse_iterator.relational");
     Buf A("a", mk(c.a, 0), c.pad, padn(c));
     std::string s;
     std::string e;
